@@ -3,6 +3,32 @@ import json
 import vlib
 
 
+def add_hub_graphs(path, seed, count):
+    """Graphs the small TLC family cannot contain: one value read by about 255 operators (the real
+    counter's saturation point), in the JSON format of MC_Executor's Emit. h = op1(x); consumers read
+    h as first or second operand, some in-place capable / commutative, h and others requested."""
+    import random
+    rnd = random.Random(seed)
+    lines = []
+    for k in range(count):
+        n = [253, 254, 255, 256, 257, 300][k % 6]
+        ops = [{"ins": [1], "inplace": rnd.random() < 0.5, "comm": False}]
+        for i in range(n):
+            form = rnd.randrange(4)
+            ins = [3, 2] if form == 0 else [2, 3] if form == 1 else [3, 3] if form == 2 else [3]
+            comm = len(ins) == 2 and rnd.random() < 0.3
+            ops.append({"ins": ins, "inplace": rnd.random() < 0.6, "comm": comm})
+        nv = 2 + len(ops)
+        outs = sorted(set([nv] + rnd.sample(range(3, nv), rnd.randrange(0, 3))))
+        owned = [v for v in (1, 2) if rnd.random() < 0.5]
+        big = [v for v in (1, 2) if rnd.random() < 0.3]
+        lines.append(json.dumps({"ni": 2, "ops": ops, "outs": outs, "owned": owned, "big": big}))
+    with open(path, "a") as f:
+        for l in lines:
+            f.write(l + "\n")
+    return len(lines)
+
+
 def run_exec(ctx, prop):
     ctx.build(["vh-graph"])
     # design level: the transcribed in-place rule of Graph::run_plan refines the contract on every
@@ -10,8 +36,19 @@ def run_exec(ctx, prop):
     gen_cfg = "graph/MC_Executor_gen2.cfg" if ctx.quick else "graph/MC_Executor_gen3.cfg"
     graphs_all = ctx.path("graphs_all.jsonl")
     ng = ctx.tlc_generate("graph/MC_Executor", gen_cfg, graphs_all, workers=6, timeout=3000, heap="12g")
+    # usage counts are u8 in the code and saturate ("sticky" at 255): with CountMax = 2 / 3 TLC reaches
+    # saturation on the same graph family; the non-sticky variant must break the contract
+    ctx.tlc_mc("graph/MC_Executor", "graph/MC_Executor2_sat.cfg" if ctx.quick else "graph/MC_Executor3_sat.cfg",
+               workers=6, timeout=3000, heap="12g", label="saturating usage counts (CountMax small): sticky counts keep the in-place rule safe")
+    if not ctx.quick:
+        info, out = ctx.tlc_mc("graph/MC_Executor", "graph/MC_Executor2_satbroken.cfg", workers=2, timeout=900, expect_ok=False,
+                               label="non-sticky decrement of a saturated count: TLC must find the contract violation")
+        if "is violated" not in out:
+            raise vlib.ToolError("Executor with StickyDec = FALSE did not produce the expected counterexample")
     graphs = ctx.path("graphs.jsonl")
     n = vlib.sample_lines(graphs_all, graphs, 2500 if ctx.quick else 60000, ctx.seed)
+    if not ctx.replay:
+        n += add_hub_graphs(graphs, ctx.seed, 6 if ctx.quick else 40)
     if ctx.replay:
         with open(graphs, "w") as f:
             g = dict(ctx.replay["record"]["case"]["g"])
